@@ -28,7 +28,7 @@ def cases(tier, seed):
     for i in range(n):
         out.append({"name": "timeout.deadlines/%s/%d" % ("f_timeout" if i % 3 == 2 else "executor", i), "kind": "gen",
                     "form": "f_timeout" if i % 3 == 2 else "executor", "idx": i})
-    cap = 20 if tier == "quick" else None
+    cap = None
     for trig in ("submit_long", "complete", "timer"):
         for second in ("submit_short", "complete", "user_cancel", "submit_long"):
             out.append({"name": "timeout.sweep/worker/%s|%s" % (trig, second), "kind": "sweep", "victim": "worker",
@@ -37,6 +37,11 @@ def cases(tier, seed):
         out.append({"name": "timeout.sweep/client/%s|timer" % vop, "kind": "sweep", "victim": "client", "trigger": vop,
                     "second": "timer", "cap": cap})
     out.append({"name": "timeout.f_timeout/recreate", "kind": "recreate"})
+    for form in ("executor", "f_timeout"):
+        for cost in (0.25, 0.6, 3.0):
+            for first in ("running", "refusing", "pending"):
+                out.append({"name": "timeout.slow-cancel/%s/%s/%s" % (form, first, cost), "kind": "slowcancel", "form": form,
+                            "cost": cost, "first": first})
     return out
 
 
@@ -72,6 +77,11 @@ class TW(object):
             k = [k for k, it in enumerate(self.me.items) if it[1] is fn][0]
             rec["spy"] = self.me.fut(k)
             rec["item"] = k
+            # the future is created after the delegate accepted the callable: if the harness let time pass
+            # while submit() was suspended before that point, the creation time is not earlier than that
+            for e in LOG.select("me.submit"):
+                if e[4].get("idx") == k and e[4].get("ex") == "me":
+                    rec["created"] = max(rec["created"], e[1])
             if running:
                 self.me.mark_running(k)
         else:
@@ -320,7 +330,38 @@ def run_recreate(case, res):
             end(ctx)
 
 
+def run_slowcancel(case, res):
+    """The cancel() of an overdue future takes time (and may be refused); futures with later deadlines are still
+    cancelled at their own deadline, not later by the time the earlier cancel took."""
+    cost = case["cost"]
+    for later in ([1.0 + cost + 0.4], [1.0 + cost + 0.4, 1.0 + cost + 0.4], [1.0 + cost + 0.3, 1.0 + cost + 2.0, 9.0]):
+        begin("vt")
+        ctx = Ctx()
+        try:
+            w = TW(ctx, case["form"], default=50.0)
+            a = w.submit(1.0, running=(case["first"] == "running"))
+            a["spy"].cancel_cost = cost
+            if case["first"] == "refusing":
+                a["spy"].refuse_cancels = 1
+                a["running"] = True  # (for the judge: its cancel() may legitimately be refused)
+            for T in later:
+                w.submit(T)
+            instr.advance(30.0)
+            res.execs += 1
+            check_common(res)
+            # while the first cancel() was in progress nobody could be cancelled: no deadline lies in that window
+            if w.judge(res, case["name"]):
+                res.key("slowcancel", case["form"], case["first"], cost, len(later))
+            res.count("slow_cancels", len([c for c in a["spy"].cancel_calls]))
+            res.sample({"form": case["form"], "first_future": case["first"], "cancel_takes": cost, "later_timeouts": later,
+                        "cancel_arrivals": [(e[4]["tag"], round(e[1] - w.t0, 3)) for e in LOG.select("spy.cancel")]}, limit=1)
+        finally:
+            end(ctx)
+
+
 def run_case(case, res):
+    if case["kind"] == "slowcancel":
+        return run_slowcancel(case, res)
     if case["kind"] == "gen":
         run_gen(case, res)
     elif case["kind"] == "recreate":
